@@ -454,6 +454,119 @@ for text in ("ACGT", "", "acgt", "ACGTNN", "ACR", "acgty", "N", "ACGU", "AC-T", 
                 lambda text=text, mode=mode: nucleotide_construction(text, mode))
 
 
+def index_forms(kind, syms):
+    """indexing and assignment agree with the symbol list for every documented form of index: Python and NumPy
+    integers (an element of np.where(...)[0] or the result of np.argmax is a NumPy integer), slices, index arrays
+    and boolean masks; the symbols themselves may be strings of several characters or tuples"""
+    if kind == "nucleotide":
+        make = lambda x: seq.NucleotideSequence("".join(x))
+        alph_syms = list("ACGT")
+    elif kind == "protein":
+        make = lambda x: seq.ProteinSequence("".join(x))
+        alph_syms = list("ACDW")
+    else:
+        alph_syms = {"words": ["foo", "bar", "x", ""], "tuples": [(1, 2, 3), (), (1,), ("a", "b")], "numbers": [42, 7, -1, 0]}[kind]
+        alph = seq.Alphabet(alph_syms)
+        make = lambda x: seq.GeneralSequence(alph, list(x))
+    syms = [alph_syms[k] for k in syms]
+    n = len(syms)
+    s = make(syms)
+    for i in range(-n, n):
+        for tname, conv in (("int", int), ("np.int64", np.int64), ("np.int32", np.int32), ("np.int8", np.int8), ("np.intp", np.intp)) + \
+                (() if i < 0 else (("np.uint8", np.uint8), ("np.uint64", np.uint64))):
+            idx = conv(i)
+            try:
+                got = s[idx]
+            except Exception as e:
+                return f"s[{tname}({i})] raised {type(e).__name__}: {e}"
+            if got != syms[i] or type(got) is not type(syms[i]) and not isinstance(got, str):
+                return f"s[{tname}({i})] = {got!r} != {syms[i]!r}"
+            for new in alph_syms:
+                c = s.copy()
+                try:
+                    c[idx] = new
+                except Exception as e:
+                    return f"s[{tname}({i})] = {new!r} raised {type(e).__name__}: {e}"
+                want = list(syms)
+                want[i] = new
+                if list(c.symbols) != want or list(s.symbols) != syms:
+                    return f"after s[{tname}({i})] = {new!r} the symbols are {list(c.symbols)} instead of {want}"
+    # several positions at once
+    for name, index, positions in (("index array", np.arange(n)[::-1], list(range(n))[::-1]), ("index list", list(range(n)), list(range(n))),
+                                   ("boolean mask", np.arange(n) % 2 == 0, [k for k in range(n) if k % 2 == 0]),
+                                   ("np.where(...)[0]", np.where(np.arange(n) % 2 == 0)[0], [k for k in range(n) if k % 2 == 0]),
+                                   ("slice", slice(0, n, 2), list(range(0, n, 2)))):
+        got = list(s[index].symbols)
+        if got != [syms[k] for k in positions]:
+            return f"s[{name}] = {got}"
+        repl = [alph_syms[(k + 1) % len(alph_syms)] for k in range(len(positions))]
+        c = s.copy()
+        try:
+            c[index] = make(repl)
+        except Exception as e:
+            return f"s[{name}] = sequence raised {type(e).__name__}: {e}"
+        want = list(syms)
+        for k, r in zip(positions, repl):
+            want[k] = r
+        if list(c.symbols) != want or list(s.symbols) != syms:
+            return f"after s[{name}] = {repl} the symbols are {list(c.symbols)} instead of {want}"
+    return None
+
+
+for kind in ("nucleotide", "protein", "words", "tuples", "numbers"):
+    for n in (1, 2, 3):
+        for syms in itertools.product(range(4), repeat=n):
+            if n == 3 and syms[0] > 1:
+                continue
+            R.check("sequence objects agree with their strings", "every form of index", {"kind": kind, "symbols": list(syms)},
+                    lambda kind=kind, syms=syms: index_forms(kind, syms))
+
+
+def wide_alphabet_sequence(n_sym):
+    """sequences over alphabets whose codes need 8, 16 or 32 bits behave like their symbol lists under construction,
+    indexing, slicing, assignment, reversal, concatenation, copying and equality"""
+    alph = seq.Alphabet(list(range(n_sym)))
+    syms = [0, n_sym - 1, min(n_sym - 1, 255), min(n_sym - 1, 256), min(n_sym - 1, 65535), min(n_sym - 1, 65536), n_sym // 2, 1 % n_sym]
+    s = seq.GeneralSequence(alph, syms)
+    if list(s.symbols) != syms or len(s) != len(syms) or [int(c) for c in s.code] != syms:
+        return f"symbols {list(s.symbols)} != {syms}"
+    if s.code.dtype.itemsize * 8 < (n_sym - 1).bit_length():
+        return f"code dtype {s.code.dtype} cannot hold {n_sym} symbols"
+    for i in range(-len(syms), len(syms)):
+        if s[i] != syms[i]:
+            return f"s[{i}] = {s[i]}"
+    for sl in (slice(1, None), slice(None, None, -1), slice(2, 6)):
+        if list(s[sl].symbols) != syms[sl]:
+            return f"s[{sl}]"
+    if list(s.reverse().symbols) != syms[::-1] or list((s + s).symbols) != syms + syms:
+        return "reverse / concatenation"
+    c = s.copy()
+    c[0] = n_sym - 1
+    c[1:3] = seq.GeneralSequence(alph, [1 % n_sym, 0])
+    if list(c.symbols) != [n_sym - 1, 1 % n_sym, 0] + syms[3:] or list(s.symbols) != syms:
+        return f"assignment: {list(c.symbols)}"
+    if not (s == seq.GeneralSequence(alph, syms)) or (s == c and list(c.symbols) != syms):
+        return "equality"
+    for bad in (n_sym, -1 - n_sym * 0 - 1):
+        try:
+            seq.GeneralSequence(alph, [bad])
+            return f"symbol {bad} outside the alphabet was accepted"
+        except seq.AlphabetError:
+            pass
+    t = seq.GeneralSequence(alph, syms)
+    try:
+        t.code = np.array([n_sym], dtype=np.int64)
+        got = list(t.symbols)
+        return f"code {n_sym} outside the alphabet decoded as {got}"
+    except (seq.AlphabetError, ValueError, IndexError, OverflowError):
+        pass
+    return None
+
+
+for n_sym in (2, 255, 256, 257, 300, 65535, 65536, 65537, 70000):
+    R.check("sequence objects agree with their strings", "sequences over wide alphabets", {"alphabet size": n_sym}, lambda n_sym=n_sym: wide_alphabet_sequence(n_sym))
+
+
 mapper_src, mapper_tgt = seq.NucleotideSequence.alphabet_unamb, seq.NucleotideSequence.alphabet_amb
 
 
